@@ -34,6 +34,9 @@ CHECKS = {
  "C07": (True, "E1", "exploration", E1,
   "All ordered pairs of a pool of ~130 Laurent polynomials (thorough ~330; support -3..3, <=3 terms, coefficients in {1,-1,2,1/2,-3/2}, cancellation cases included) for + - *, commutativity, ==/!=/hash, evaluation homomorphism under all three schemes at 6 points, derivative linearity and product rule, composition; every polynomial alone for p-p, scalars, powers 0..3 (thorough 0..5), construction routes, order/values, diff/integrate; all triples of a sub-pool for associativity/distributivity; all 5460 Lagrange point sets (1..4 distinct abscissae) for both strategies. Exact Fractions throughout; no stored zero coefficient after any operation.",
   "Pool and exponent bounds; Laurent composition only with monomial inner polynomial; evaluation at 0 only without negative powers."),
+ "C09": (True, "E1", "exploration", E1 + "; symbolic block samples, exact rational windows",
+  "Every (size<=8, hop<=size, 0..6 blocks, window kind x values, normalise, size given/detected, hop given/defaulted, block container) (thorough size<=10, 8 blocks) is run through the real overlap_add.list on symbolic blocks and compared as linear forms with the windowed hop-shifted sum and the stated gain; blocking->overlap-add and identity-STFT reconstruction on every fully covered sample for all hop | size and the Bartlett window; 77k (thorough 203k) STFT wrapper configurations (sizes, hops, lengths, user function, transform pair, before/after, analysis window kind, ola strategy / None / recording fake, ola_wnd, ola_normalize, four calling styles) with recording stage functions: stage order, window-before-func, sizes passed, exactly size/hop/ola_-stripped options reaching the overlap-add.",
+  "Bounds on size/blocks; hop <= size; pure-Python list strategy and stages only (numpy absent); error-raising behaviour is not part of the property and not demanded."),
 }
 
 NOT_YET = "check not built yet in this session; see DESIGN.md section 4 for the planned model-checking harness"
